@@ -15,12 +15,15 @@ import (
 
 type Case struct {
 	Cmd    string `json:"cmd"`    // migrate-diff | migrate-validate | migrate-lint | schema-apply | schema-diff
-	Dev    string `json:"dev"`    // empty | tables | view | trigger | memory
+	Dev    string `json:"dev"`    // empty | tables | view | trigger | lookalike | memory
 	Files  []int  `json:"files"`  // statements per migration file (directory commands) / statements of the SQL schema
 	FailAt int    `json:"fail_at"` // global index of the failing statement (-1 = none)
 	Style  int    `json:"style"`   // 0 tables+indexes; 1 views first (view-only prefixes / end states); 2 tables, views on them and triggers
 	Ckpt   int    `json:"ckpt,omitempty"`   // directory commands: 1-based index of the file that is a checkpoint (0 = none); replay starts there
 	Latest int    `json:"latest,omitempty"` // migrate lint: --latest N (0 = 1)
+	// FailKind: 0 the failing statement is rejected by the engine; 1 it executes but leaves a state that cannot be inspected
+	// (foreign key to a column that does not exist); 2 it opens its own transaction and fails inside it
+	FailKind int `json:"fail_kind,omitempty"`
 }
 
 func stmtsFor(c Case) [][]string {
@@ -48,6 +51,14 @@ func stmtsFor(c Case) [][]string {
 			}
 			if k == c.FailAt {
 				s = fmt.Sprintf("CREATE INDEX broken_%d ON no_such_table_%d (v)", k, k)
+				switch c.FailKind {
+				case 1:
+					// executes fine, but the state cannot be read back afterwards: the referenced column does not exist
+					s = fmt.Sprintf("CREATE TABLE dangling_%d (id integer, p integer REFERENCES dangling_%d (nope))", k, k)
+				case 2:
+					// the file opens a transaction itself and fails inside it
+					s = fmt.Sprintf("BEGIN;\nCREATE TABLE intx_%d (id integer);\nINSERT INTO no_such_table_%d VALUES (1);\nCOMMIT", k, k)
+				}
 			}
 			fs = append(fs, s)
 			k++
@@ -128,6 +139,9 @@ func checkCase(c Case) (Outcome, error) {
 			setup = append(setup, "CREATE TABLE precious (id integer PRIMARY KEY, note text)", "INSERT INTO precious VALUES (1, 'keep me'), (2, 'and me')", "CREATE INDEX precious_note ON precious (note)")
 		case "view":
 			setup = append(setup, "CREATE VIEW precious_view AS SELECT 1 AS one")
+		case "lookalike":
+			// a user table whose name merely starts like SQLite's internal tables (sqlite_...): `_` is a LIKE wildcard
+			setup = append(setup, "CREATE TABLE sqlitex (id integer PRIMARY KEY, note text)", "INSERT INTO sqlitex VALUES (1, 'keep me')")
 		case "trigger":
 			setup = append(setup, "CREATE TABLE precious (id integer)", "CREATE TRIGGER precious_trg AFTER INSERT ON precious BEGIN SELECT 1; END")
 		}
@@ -234,7 +248,7 @@ func checkCase(c Case) (Outcome, error) {
 		return out, fmt.Errorf("harness: %v", err)
 	}
 	switch c.Dev {
-	case "tables", "view", "trigger":
+	case "tables", "view", "trigger", "lookalike":
 		out.Refused = r.Code != 0
 		if devAfter != devBefore {
 			return out, fmt.Errorf("%s on a non-empty dev database (%s) modified it (exit %d):\n before:\n%s\n after:\n%s\n%v", c.Cmd, c.Dev, r.Code, devBefore, devAfter, r)
@@ -256,7 +270,7 @@ func checkCase(c Case) (Outcome, error) {
 				skipped += len(stmts[f])
 			}
 		}
-		if c.FailAt >= skipped && c.FailAt < total && r.Code == 0 && c.Cmd != "migrate-lint" {
+		if c.FailAt >= skipped && c.FailAt < total && r.Code == 0 && c.Cmd != "migrate-lint" && c.FailKind == 0 {
 			return out, fmt.Errorf("harness: %s was expected to fail at statement %d: %v", c.Cmd, c.FailAt, r)
 		}
 	}
